@@ -8,6 +8,6 @@ const RaceBuild = false
 func SyncOff() {}
 
 //go:norace
-func SyncOn() {}
+func SyncOn()          {}
 func taskRelease(*Sim) {}
 func caseAcquire(*Sim) {}
